@@ -8,7 +8,7 @@ EXPLANATION = ('Structural necessary conditions of outbound flow control: both n
                'receive-maximum test on that queue\'s own head and by the slow-start gate; the predicate compares the unacked-publish '
                'table size with the negotiated receive maximum; that table only grows after a full write and only shrinks at completion '
                '/ close; slow-start values are assigned before the ack tables are drained, summed at CONNACK before session handling, '
-               'and decremented in both completion points.')
+               'and decremented in both completion points. Added in round 3 / after defect 16: marks persist until their operation completes, are set exactly under the one-at-a-time policy, and the drain-policy setter stores its argument.')
 ASSUMPTIONS = ['not decided: the bound at every instant of every history (only the gate/accounting sites)']
 P = 'src/protocol.rs'
 PS = 'protocol::ProtocolState'
@@ -136,3 +136,8 @@ def run(ctx):
     _ns = _sh.builder_setters(ctx, lambda b, m: b == 'MqttClientOptionsBuilder' and m == 'with_post_reconnect_queue_drain_policy', 'R-C09-4', 'the configured drain policy is the one in force')
     if ctx.config == 'all':
         ctx.floor(_ns, 1, 'builder setters this property depends on')
+    # ---- added after seed C09-4a: the window in force is the Receive Maximum of this connection's CONNACK (shared with C07)
+    from . import shared as _sh3
+    _n3 = _sh3.import_obligations(ctx, 'C07', lambda o: o['key'].endswith('ns|receive_maximum_from_server'), 'R-C09-1', 'the flow-control comparison reads current_settings.receive_maximum_from_server; that value must be the CONNACK\'s of this connection (65535 if absent), never a value kept from an earlier connection')
+    if ctx.config == 'all':
+        ctx.floor(_n3, 1, 'negotiated receive maximum obligation shared with C07')
